@@ -39,7 +39,7 @@ def case_strategy():
         t = draw(G.static_ann(knames, depth=draw(st.sampled_from([1, 2, 2, 3])),
                               extra=("object", "int", "str", "PA", "PB", "Number", "Sequence", "Sized"),
                               kinds=["cls"] * 3 + ["union"] * 3 + ["inter"] * 3 + ["exactly", "strict", "hasmethod"]))
-        return {"kind": "apply", "hier": h, "type": t}
+        return {"kind": "apply", "hier": h, "type": t, "amp": draw(st.booleans())}
 
     return _case()
 
@@ -54,7 +54,7 @@ def run_apply(spec):
     res = R.CaseResult()
     env = H.build(spec["hier"])
     t = spec["type"]
-    ann = S.build_ann(t, env)
+    ann = S.build_ann(t, env, {"union": "ovld", "inter": "amp"} if spec.get("amp") else None)
     log = []
 
     def hit(x):
@@ -260,8 +260,61 @@ def run_law(spec):
     return res
 
 
+def run_late(spec):
+    """A class that does NOT satisfy a type when a first function looks at it comes to satisfy it later (a method is
+    added, it is registered with an ABC): a function built afterwards must see the new relation."""
+    import abc
+
+    res = R.CaseResult()
+    from ovld.types import HasMethod
+
+    which = spec["which"]
+    K = type("KLate", (), {})
+    Abc = abc.ABCMeta("AbcLate", (), {})
+    T = {"hasmethod": HasMethod["mLate"], "abc": Abc, "protocol": H.PA}[which]
+
+    def build():
+        def hit(x):
+            return "hit"
+
+        def fallback(x):
+            return "fallback"
+
+        hit.__annotations__ = {"x": T}
+        fallback.__annotations__ = {"x": object}
+        ov = ovld.Ovld()
+        ov.register(hit)
+        ov.register(fallback, priority=-1)
+        return ov.dispatch
+
+    f1 = build()
+    o = capture(f1, K())
+    if o.kind != "ok" or o.value != "fallback" or subclasscheck(K, T) is not False:
+        res.fail(f"late/{which}: before the change f(K()) -> {o.brief()}, subclasscheck -> {subclasscheck(K, T)}", "C13:late")
+        return res
+    if which == "hasmethod":
+        K.mLate = lambda self: 1
+    elif which == "abc":
+        Abc.register(K)
+    else:
+        K.mA = lambda self: 1
+    f2 = build()
+    o2 = capture(f2, K())
+    sc = capture(subclasscheck, K, T)
+    ii = capture(isinstance, K(), T)
+    if not (o2.kind == "ok" and o2.value == "hit" and sc.value is True and ii.value is True):
+        res.fail(f"late/{which}: after the class came to satisfy the type, a NEW function gives {o2.brief()}, "
+                 f"subclasscheck {sc.brief()}, isinstance {ii.brief()}", "C13:late")
+    res.nontrivial = True
+    res.key = f"late:{which}:{spec.get('n')}"
+    res.label("late-satisfaction:" + which)
+    return res
+
+
 def run_case(spec):
     k = spec.get("kind")
+    if k == "late":
+        return run_late(spec)
     if k == "apply":
         return run_apply(spec)
     if k == "deferred":
@@ -303,6 +356,7 @@ class Check:
             try:
                 specs = [{"kind": "deferred", "which": w, "n": task["seed"] * 1000 + i, "layout": lay}
                          for i in range(task["n"]) for w in ("C", "D") for lay in ("module", "package")]
+                specs += [{"kind": "late", "which": w, "n": i} for i in range(3) for w in ("hasmethod", "abc")]  # (protocols: Python's own negative issubclass cache would make this moot)
                 R.run_enumerated(st, specs, run_case, sigs)
             finally:
                 _SCRATCH["dir"] = None
